@@ -97,4 +97,22 @@ META = {
         "level_text": "Generated configuration histories are checked through every discovery reply and every entity notification on every connection against a model of the local tree; uniqueness of feature numbers over the whole history; all merge orders of 2-3 concurrent GetOrAddFeature calls are enumerated around the lookup/create window.",
         "level_note": "Trusted: sched engine; set comparison of announced operations. Concurrent AddFeature/AddFunctionType races are C17's subject.",
     },
+    "C05": {
+        "technique": "structure-aware mutation fuzzing driven by rapid (uniform JSON-node mutations of valid datagrams of every kind) with a crash / wedge / still-served oracle inside the target; native coverage-guided go fuzzing of raw bytes in the thorough tier",
+        "design_ref": "DESIGN.md §4 C05, Appendix A.2",
+        "level_text": "Mutated and hostile datagrams are delivered through the SHIP reader entry point in sequences of 1-5, before and after discovery, from two peers; the target recovers panics, watches for non-returning handling, checks the application's approval goroutine and then requires a valid discovery read from every peer to be answered exactly once. Thorough adds raw-byte coverage-guided fuzzing (3 min, 16 workers) with the semantic oracle inside the target. Exploration: absence of crashes is not established.",
+        "level_note": "Trusted: recover + 10 s watchdog as crash/wedge detection; the driver's attribution of process aborts. Native fuzzing cannot be seed-pinned; its saved input is the reproducible unit.",
+    },
+    "C06": {
+        "technique": "model-based property testing (rapid state machine) against a reference device tree with event-delta and removal-cascade oracles",
+        "design_ref": "DESIGN.md §4 C06",
+        "level_text": "Histories of discovery replies and partial / full add / remove notifications from two peers are applied to a reference tree; after every message the API's view of both peers, the entity events and (after removals) the exact set of vanished registry entries and client-side references are compared. Exploration over generated histories up to 8 (quick) / 15 (thorough) messages.",
+        "level_note": "Trusted: reference tree model (reply: additions only; full: replace; partial: entries in order). Regions where the statement is silent are not generated (NA list).",
+    },
+    "C16": {
+        "technique": "real-time property-based testing (rapid histories) with a history invariant; enumeration of start/stop interleavings over two build-tag yield points; free-running hammer",
+        "design_ref": "DESIGN.md §4 C16, Appendix A.4, A.6",
+        "level_text": "Heartbeat behaviour is observed through the subscribers' connections and sampled data over generated start/stop/remove histories and judged by an invariant with calibrated tolerances; the concurrent clause (no panic, no unstoppable second stream) is decided by enumerating the merge orders of Start and Stop around their check/close and stop/create windows and watching four periods after a final Stop.",
+        "level_note": "Trusted: wall-clock tolerances (mean gap, refresh count) with a self-check that discards cases where the harness was descheduled; sched engine. Timing outside the tolerances' resolution (e.g. a doubled period at 100 ms) is not decided.",
+    },
 }
